@@ -114,7 +114,7 @@ fn from_csv<'de, D>(deserializer: D) -> Result<Vec<ChallengeEventRule>, D::Error
     where
         D: Deserializer<'de>
 {
-    let string: &str = Deserialize::deserialize(deserializer)?;
+    let string: String = Deserialize::deserialize(deserializer)?;
     let result = string.split(',').map(|s| ChallengeEventRule::from_str(s).unwrap()).collect();
     Ok(result)
 }
